@@ -1,19 +1,28 @@
 """C17 — serial-number arithmetic: regenerated functions (Gen.Serial) vs utils.py, plus the laws
-evaluated directly on the implementation (oracle)."""
+evaluated directly on the implementation (oracle); origin independence of every stateful component that carries
+16/32-bit counters (SCTP association here, RTP receive stages here, real RTP sender / receiver / TimestampMapper /
+bitrate estimator in harness/c17rtp.py)."""
 from __future__ import annotations
 
 from harness.check import Component
 
 LEAN_TARGETS = ["Aiortc.Props.C17", "Aiortc.Props.C17Shift"]
 AUDIT_PROPS = ["C17", "C17Shift"]
-DRIVERS = ["Serial"]
+DRIVERS = ["Serial", "Video"]
 MANIFEST = {
     "technique": "Lean 4 theorems (omega) over Gen.Serial regenerated from utils.py by AST translation + differential run of the generated defs",
     "text": "The serial-number laws (irreflexive, antisymmetric off the half point, consistent with modular addition, translation invariant, "
             "windowed transitivity; TSN successor/predecessor inverse) are Lean theorems for ALL integers in range, about Lean defs that "
             "are re-translated from src/aiortc/utils.py and rtcsctptransport.py on every run, so a changed comparison re-checks every theorem. "
             "The translated defs are also executed against the Python functions on boundary-biased pairs.",
-    "note": "Part 2 of C17 (origin-independence of the stateful components): Props/C17Shift.lean proves shift-equivariance "
+    "note": "Origin components on the real objects: sctp-origin (association), rtp-origin (JitterBuffer / NackGenerator / StreamStatistics alone), "
+            "sender-origin (a real RTCRtpSender: scripted history of frames and NACKs for `the packet j positions back`, j over 0..400 incl. 127/128/129/255/256, "
+            "RTX on/off, NACK optionally through the RTCP codec, run from sequence / RTX-sequence / timestamp origins 0, 100, 65535-k, 65536-128+-1, 32767/32768, "
+            "`the wrap lands on packet i`; decisions and origin-free packets must agree with the run from a small origin; the absolute runs also go through the "
+            "Lean sender model via C11's `video sender` request), receiver-origin (a real video RTCRtpReceiver: RTX unwrap -> NackGenerator -> JitterBuffer -> "
+            "TimestampMapper, NACK lists / PLI / decoder items / getStats; `video recv`), tsmap-origin (`video tsmap`), rate-origin (RemoteBitrateEstimator and "
+            "its InterArrival filter under a shift of the 24-bit abs-send-time origin, oracle only). "
+            "Part 2 of C17 (origin-independence of the stateful components): Props/C17Shift.lean proves shift-equivariance "
             "`step (σ s) (σ input) = (σ s', σ output)` (σ32 k x = (x+k) % 2^32, σ16 j x = (x+j) % 2^16, any integers k, j; application-level "
             "outputs literally unchanged) for the SCTP receive path (serialKey/sortByKey/consolidate/_mark_received, add_chunk, pop_messages with "
             "TSN and SSN shifted independently, prune_chunks, _receive_data_chunk) and, by induction, the whole-run theorem `origin_independent` "
@@ -21,13 +30,15 @@ MANIFEST = {
             "_transmit, _t3_expired, and all of _receive_sack_chunk: ack loop, gap blocks, HTNA loop, strike loop, cwnd, T3) and, by induction with the "
             "range invariant TxOk, whole sender runs `sender_origin_independent` (any interleaving of _send / SACK arrival / _transmit / T3 expiry: "
             "same DATA chunks, FORWARD-TSNs and timer events); for NackGenerator.add (and whole "
-            "arrival sequences), for the RTP sender (history slot seq % 128, the _run_rtp packet loop, _retransmit) and for the whole JitterBuffer "
+            "arrival sequences), for the RTP sender (history slot seq % 128, the _run_rtp packet loop, _retransmit and, by induction with the invariant SOk, "
+            "whole histories of frames and NACKs `rtp_sender_origin_independent`: same events — same packets (re)sent, same NACKs ignored —, RTX counter moved by r), "
+            "for TimestampMapper (`tsmap_origin_independent`: any 32-bit sequence, the two runs may take the wrap branch at different calls) and for the whole JitterBuffer "
             "(packet array rotated by k mod capacity, timestamps shifted by m: remove / smart_remove / _remove_frame / add and, by induction, whole "
             "arrival lists `jitter_origin_independent`: same PLI flags, same frames). Still carried by the "
-            "origin-independence ORACLES only (components sctp-origin, rtp-origin): a whole-run theorem for the two-endpoint association "
+            "origin-independence ORACLES only (components sctp-origin, rtp-origin, receiver-origin, rate-origin): a whole-run theorem for the two-endpoint association "
             "(Endpoint.lean: the sender and receiver runs are proved separately, not composed through SACK generation `_send_sack`, FORWARD-TSN "
             "reception and the reconfig request/response sequence numbers), "
-            "StreamStatistics (C18-2 covers it with extended numbers), TimestampMapper; `sorted(missing)` of the NACK list is numeric and therefore "
+            "StreamStatistics (C18-2 covers it with extended numbers), the composition of the receiver stages, the bitrate estimator; `sorted(missing)` of the NACK list is numeric and therefore "
             "NOT equivariant (same set, different order across the wrap: retransmission order only).",
     "design_ref": "DESIGN.md §2 C17",
 }
@@ -48,11 +59,26 @@ ASSUMPTIONS = [
     "JitterBuffer theorems require the shape invariant JBOk (capacity > 0 and a divisor of 2^16 — aiortc uses 128 and 16 —, one slot per index, "
     "stored and arriving timestamps in [0, 2^32)); it holds for a freshly constructed buffer (mk_ok) and is preserved by add (jitter_add_keeps_shape); "
     "no range hypothesis on the sequence numbers is needed (only distances are computed)",
+    "rtp_sender_origin_independent: NACKed numbers are 16-bit (OpOk: they come out of an RTCP packet), the sender's next sequence number is 16-bit and the "
+    "history holds 16-bit numbers under slot keys (SOk: holds for a sender that has sent nothing, preserved by every operation); the statement is on events "
+    "(`SEv.sent p` / `SEv.resent rtxSeq p`), `rtp_sender_wire_is_rendering` turns them into wire packets; without RTX the wire packets themselves are shifted "
+    "(`rtp_sender_origin_independent_plain`)",
+    "tsmap_origin_independent: timestamps are 32-bit; nothing else (the sequence need not be monotone)",
     "_retransmit with RTX: the output packet embeds the original sequence number in its payload, so the statement is `the source packet found by the "
     "history is the shifted source packet, wrapped with the shifted RTX sequence number` (retransmit_shift / retransmit_sends_lookup)",
 ]
+TRUSTED_EXTRA = [
+    "sender-origin / receiver-origin drive the real RTCRtpSender / RTCRtpReceiver through C11's rigs: RTCDtlsTransport is a stub that records what is sent and "
+    "hands RTCP / RTP objects to _handle_rtcp_packet / _handle_rtp_packet, the track and the encoder are scripted (pack() returns the script's payloads), "
+    "decoder_worker is replaced and the decoder queue is read; the random origins are set by replacing random_sequence_number / random32 of aiortc.rtcrtpsender "
+    "(a base run from origins 100 / 7 / 1000 that does not start where the rig put it makes the component report a broken correspondence, not a violation)",
+    "rate-origin compares the values returned by RemoteBitrateEstimator.add and by its inter_arrival.compute_deltas for the two origins; no model is involved",
+]
+RULE_ORIGIN = ("origin components: one origin-free script (frames, `NACK the packet j back`, arrival pattern over stream indices with loss / duplication / "
+               "reordering / RTX copies / bursts over the history, timestamp offsets, abs-send-time schedule) x origins of every counter (0, 100, 65535-k, "
+               "65536-128+-1, 65536-256, 32767/32768, `the wrap lands on element i +-1`, random); distinct = distinct (script, origins)")
 RULE = ("pairs (a,b) / triples drawn boundary-biased (within 4 of 0, half, full, and of each other) and uniformly from both number spaces; "
-        "every Gen.Serial function is evaluated by the compiled Lean driver and by the Python function; distinct = distinct (function,args)")
+        "every Gen.Serial function is evaluated by the compiled Lean driver and by the Python function; distinct = distinct (function,args); " + RULE_ORIGIN)
 
 B16 = [0, 1, 2, 3, 32765, 32766, 32767, 32768, 32769, 32770, 65532, 65533, 65534, 65535]
 B32 = [0, 1, 2, 3, 2**31 - 2, 2**31 - 1, 2**31, 2**31 + 1, 2**31 + 2, 2**32 - 3, 2**32 - 2, 2**32 - 1]
@@ -310,9 +336,11 @@ class SctpOrigin(Component):
 
 
 class RtpOrigin(Component):
-    """JitterBuffer, NackGenerator, StreamStatistics and the sender's retransmission history: the same
-    arrival pattern with every sequence number shifted by k (mod 2^16) and every timestamp by k·3000
-    (mod 2^32) must give the same frames / the shifted missing sets / the same statistics."""
+    """JitterBuffer, NackGenerator and StreamStatistics, each on its own: the same arrival pattern with every
+    sequence number shifted by k (mod 2^16) and every timestamp by an independent shift (mod 2^32) must give the
+    same frames / the shifted missing sets / the same statistics.  (The RTP SENDER — retransmission history, RTX
+    counter, timestamp origin —, the assembled receiver, TimestampMapper and the bitrate estimator are the
+    components of harness/c17rtp.py.)"""
 
     name = "rtp-origin"
     theorems = []
@@ -401,7 +429,8 @@ class RtpOrigin(Component):
 
 
 def components(tier):
-    return [Serial(), RtpOrigin(), SctpOrigin()]
+    from harness import c17rtp as R
+    return [Serial(), RtpOrigin(), R.SenderOrigin(), R.ReceiverOrigin(), R.TsMapOrigin(), R.RateOrigin(), SctpOrigin()]
 
 
 def classify_finding(finding, comp_name, case, what):
